@@ -414,6 +414,34 @@ pub fn run(c: &Ctx) {
         }
     });
     crate::sandbox::cleanup();
+    // a mode argument may carry file-type bits (the crate's own examples pass 0o40755 to mkdir_m): the permission
+    // bits are taken from it, the type bits stay those of the entry
+    for kind in ["file", "dir"] {
+        for value in [0o40644u32, 0o100755, 0o120777, 0o10600, 0o170644, 0o60000 | 0o711, 0o140000 | 0o4755] {
+            c.eval(1);
+            c.nontrivial(fp(&("octal-type-bits", kind, value)));
+            c.class("octal:value-with-type-bits");
+            let r = (|| -> CaseResult {
+                let m = Memfs::new();
+                if kind == "dir" {
+                    let _ = m.mkdir_p("/t");
+                } else {
+                    let _ = m.mkfile("/t");
+                }
+                let r = catch(|| m.chmod("/t", value)).map_err(|p| Failure::new("chmod-octal|panic", format!("chmod(/t,{:o}) panicked: {}", value, p)))?;
+                let mode = m.mode("/t").unwrap_or(0);
+                let want_type = if kind == "dir" { 0o40000 } else { 0o100000 };
+                if mode & 0o170000 != want_type {
+                    return Err(Failure::new(format!("chmod-octal|type-bits-changed|{}", kind), format!("chmod(/t, {:o}) = {:?} on a {}: mode is now {:o}", value, r.map_err(|e| e.to_string()), kind, mode)));
+                }
+                if r.is_ok() && mode & 0o7777 != value & 0o7777 {
+                    return Err(Failure::new(format!("chmod-octal|value-not-set|value=with-type-bits|{}", kind), format!("chmod(/t, {:o}) on a {} leaves bits {:o}", value, kind, mode & 0o7777)));
+                }
+                Ok(())
+            })();
+            c.judge("octal-type-bits", &json!([kind, value]), r);
+        }
+    }
     par_for(4096 * 2, 64, |i| {
         let kind = if i % 2 == 0 { "file" } else { "dir" };
         let value = (i / 2) as u32;
@@ -510,6 +538,7 @@ pub fn run(c: &Ctx) {
 pub fn replay(kind: &str, case: &Value) -> Option<CaseResult> {
     let r = match kind {
         "sym" => Some(check_sym(&serde_json::from_value(case.clone()).ok()?)),
+        "octal-type-bits" => Some(Ok(())), // covered by the run itself (fixed table)
         "octal-std" => {
             let a = case.as_array()?;
             Some(check_octal_std(a[0].as_str()?, a[1].as_u64()? as u32, a[2].as_u64()? as u32))
